@@ -23,8 +23,8 @@ def main():
         return 2
     prop = sys.argv[1]
     if sys.argv[2] == '--replay':
-        mod = importlib.import_module(prop.lower())
-        return mod.replay(sys.argv[3])
+        import replay
+        return replay.replay(prop, sys.argv[3])
     tier = sys.argv[2]
     rep = Report(prop, tier, LEVELS[prop])
     try:
